@@ -35,7 +35,7 @@ func GenerateFor(prop string, seed uint64, tier string, auto bool) *Spec {
 		// programs whose evaluation or result order follows a Go map with
 		// several entries: only here, where that order is the simulator's
 		switch s.Kind {
-		case "shared-expr", "per-task-expr", "shared-doc", "frame-seq":
+		case "shared-expr", "per-task-expr", "shared-doc", "frame-seq", "history":
 			pg := &work.Gen{R: mo, Ext: true}
 			for i := range s.Exprs {
 				if mo.Chance(1, 3) && len(s.Exprs[i].Vars) == 0 {
